@@ -283,6 +283,11 @@ def run(tier, seed):
     for sp in F.unsorted_absence_specs():
         li.append((sp, {"rule": "TSLACK", "max_time": 20}))
         li.append((sp, {"rule": "TSLACK", "max_time": 20, "absence": [1]}))
+    # machine tasks that name their machine by ID while that machine (or the other one) is individually absent at the start, in the middle, or for the whole run
+    for sp in F.named_machine_specs() + F.stuck_component_specs():
+        for fn in F.facility_names(sp)[:2]:
+            for cal in ([0], [0, 1], [1], [2, 3]):
+                li.append((sp, {"rule": "TSLACK", "max_time": 24, "res_absence": {fn: cal}}))
     col.merge(stepcheck.explore(li, MONS, 0, 0, seed=seed))
     # a run that follows an earlier run on the same objects, with a worker's absence list edited in place in between
     col.merge(stepcheck.explore(stepcheck.edited_items(names=("worker-absence-inplace", "worker-absence-move")), MONS, 0, 0, seed=seed))
